@@ -136,6 +136,6 @@ def machine_replay(case, rec):
 SUBS = [
     Sub("machine_indexes", machine_replay, runner=machine_runner, examples=MEX, weight=4),
     Sub("fuzz", check, runner=fuzz_runner, shards={"quick": 2, "thorough": 8}, weight=9),
-    Sub("roundtrip", check, strategy=lambda tier: G.indx_cases(40 if tier == "quick" else 120, 50),
+    Sub("roundtrip", check, strategy=lambda tier: G.indx_cases(40 if tier == "quick" else 120, 50, very_long=True),
         examples={"quick": 5000, "thorough": 200000}),
 ]
